@@ -269,7 +269,7 @@ func (g *lfGen) vec(depth int) string {
 		if g.rr.Intn(5) == 0 {
 			// functions of constants: the function's value is not its argument's (fix 5cb81d1), and absent() of something
 			// that always returns never returns (fix a8bfa1d)
-			switch g.rr.Intn(6) {
+			switch g.rr.Intn(7) {
 			case 0:
 				return fmt.Sprintf("(abs(vector(-%d)) %s %d)", 1+g.rr.Intn(2), hx.Pick(g.rr, []string{">", ">=", "=="}), g.rr.Intn(2))
 			case 1:
@@ -280,6 +280,9 @@ func (g *lfGen) vec(depth int) string {
 				return fmt.Sprintf("(%s unless on() absent(vector(1)))", g.vec(depth-1))
 			case 4:
 				return fmt.Sprintf("(absent(vector(1)) or %s)", g.vec(depth-1))
+			case 5:
+				// an arithmetic operator calculateStaticReturn did not fold (fix b9540eb)
+				return fmt.Sprintf("((vector(1) atan2 %d) < 1)", 1+g.rr.Intn(2))
 			default:
 				return fmt.Sprintf("(sgn(vector(%d)) < 2)", 3+g.rr.Intn(3))
 			}
@@ -914,6 +917,10 @@ func c12Static(r *hx.Run) {
 	}
 	b, _ := json.Marshal(e.json)
 	r.Count(fmt.Sprintf("static:dead=%v", s0.IsDead))
+	if s0.IsDead && s0.IsDeadReason == "" {
+		// the report's only text is this reason (fix 2359b11: arithmetic after the comparison blanked it)
+		r.Violate(hx.Violation{Class: "dead-verdict-without-a-reason", Input: cs, Observed: lfShowSrc(s0), Expected: "a dead code report says why"})
+	}
 	r.Op("lfstatic\t"+string(b), fmt.Sprintf("%v %v %s %v %v", s0.AlwaysReturns, s0.KnownReturn, num, s0.IsDead, s0.IsConditional))
 	if !e.closed {
 		return
